@@ -1,12 +1,15 @@
 #!/usr/bin/env python3
-# tools/seed_prompts.py <round-tag>: writes /tmp/agent-prompt-<tag>-<prop>.txt for every property from tools/agent_prompt.tmpl
+# tools/seed_prompts.py <round-tag> [prop ...]: writes /tmp/agent-prompt-<tag>-<prop>.txt for every property from tools/agent_prompt.tmpl
 # (property text, a scratch worktree /tmp/wt-<tag>-<prop> of /repo's HEAD, the ideas already stored under seeded/ for that property)
 # and creates the worktrees and the result directories /tmp/seed-<tag>-<prop>/. The sub-agent gets only that file.
 import json, os, subprocess, sys
 tag = sys.argv[1]
+only = set(sys.argv[2:])  # optional: property ids
 tmpl = open('/verif/tools/agent_prompt.tmpl').read().replace('seed-PID', 'seed-@@ID@@').replace('WT', '@@WT@@')
 for l in open('/verif/properties.jsonl'):
     p = json.loads(l); pid = p['id']
+    if only and pid not in only:
+        continue
     prior = []
     for d in sorted(os.listdir('/verif/seeded')):
         if d.startswith(pid + '-'):
